@@ -17,7 +17,23 @@ if REPO_SRC not in sys.path:
 
 import logging
 
-logging.disable(logging.CRITICAL)
+# the library logs profusely; only ERROR records of the async run loop are of interest
+# (an exception while processing one event is logged there and nowhere else observable)
+CURRENT = {"ctl": None}
+
+
+class _LoopErrorHandler(logging.Handler):
+    def emit(self, record):  # noqa: D401
+        ctl = CURRENT["ctl"]
+        if ctl is not None and isinstance(record.msg, str) and "Error processing event" in record.msg:
+            exc = record.exc_info[0].__name__ if record.exc_info and record.exc_info[0] else "?"
+            ctl.emit("loop_error", exc)
+
+
+_lg = logging.getLogger("xstate_statemachine")
+_lg.setLevel(logging.ERROR)
+_lg.propagate = False
+_lg.addHandler(_LoopErrorHandler())
 
 from typing import Any, Dict, List, Optional
 
@@ -48,7 +64,30 @@ class Ctl:
 
     def take(self) -> List[list]:
         out, self.log = self.log, []
-        return out
+        return canon_rearm(out)
+
+
+def canon_rearm(log: List[list]) -> List[list]:
+    """The rollback path re-arms exited states while iterating a set; the block of
+    (rearm, arm*) groups is put into state-id order so that logs compare."""
+    res: List[list] = []
+    i = 0
+    while i < len(log):
+        if log[i][0] != "rearm":
+            res.append(log[i])
+            i += 1
+            continue
+        groups = []
+        while i < len(log) and log[i][0] == "rearm":
+            g = [log[i]]
+            i += 1
+            while i < len(log) and log[i][0] == "arm":
+                g.append(log[i])
+                i += 1
+            groups.append(g)
+        for g in sorted(groups, key=lambda g: g[0][1]):
+            res.extend(g)
+    return res
 
 
 def make_logic(ctl: Ctl, actions: List[str], guards: List[str], services=None, delays=None) -> MachineLogic:
@@ -60,11 +99,14 @@ def make_logic(ctl: Ctl, actions: List[str], guards: List[str], services=None, d
         return marker
 
     def mk_guard(name: str):
-        def guard(ctx, event):
+        def guard(ctx, event, params=None):
             ctl.calls += 1
-            v = ctl.gv.get(name, "F")
+            key = name
+            if isinstance(params, dict) and isinstance(params.get("k"), str):
+                key = f"{name}:{params['k']}"   # parameterised guard: the answer depends on params
+            v = ctl.gv.get(key, "F")
             if v == "R":
-                raise RuntimeError(f"guard {name} raises")
+                raise RuntimeError(f"guard {key} raises")
             return v == "T"
         return guard
 
@@ -160,7 +202,9 @@ class _TraceMixin:
         return sel
 
     def _schedule_state_tasks(self, state):
-        self._ctl.emit("sched", state.id)
+        # called from _enter_states on entry, from the rollback path to re-arm exited states
+        kind = "sched" if sys._getframe(1).f_code.co_name == "_enter_states" else "rearm"
+        self._ctl.emit(kind, state.id)
         return super()._schedule_state_tasks(state)
 
     def _after_timer(self, delay_sec, event, owner_id):
